@@ -5,6 +5,7 @@ proved about) + adapters to the real library (`C2Profile.from_text`, `.as_text()
 
 streams
   rt    valid sentences: parse, serialise the Lark tree, regenerate, re-lex, re-parse       (property itself)
+  txt   the same sentences: exact text of as_text()                                          (correspondence only)
   tree  arbitrary / hand-made / mutated trees through the Reconstructor                      (correspondence only)
   lex   token soups through Lark's lexer vs `lexProfile`                                     (correspondence only)
   pp    arbitrary item lists through `postproc` + `Reconstructor.reconstruct`'s join         (correspondence only)
@@ -30,7 +31,8 @@ ID = "C10"
 DRIVER = "drv_c10"
 GEN = ["grammar"]
 STREAMS = {
-    "rt": {"relevant": True, "desc": "from_text(src).tree, Reconstructor items, as_text(), re-lex, re-parse"},
+    "rt": {"relevant": True, "desc": "from_text(src).tree, Reconstructor items, re-lex and re-parse of as_text()"},
+    "txt": {"relevant": False, "desc": "as_text() character for character (indentation, blank lines) vs asText"},
     "tree": {"relevant": False, "desc": "Reconstructor on arbitrary trees (mutated, hand-made) vs printTree/asText"},
     "lex": {"relevant": False, "desc": "c2profile_parser.lex(text) vs lexProfile"},
     "pp": {"relevant": False, "desc": "as_text's postproc closure + Reconstructor.reconstruct join vs postproc/joinItems"},
@@ -268,7 +270,9 @@ def gen(tier, rng, shard, nshards):
         return (k % nshards) == shard
 
     def rt(toks, **kw):
-        return "rt", "rt " + hx(render(rng, toks, **kw))
+        h = hx(render(rng, toks, **kw))
+        yield "rt", "rt " + h
+        yield "txt", "txt " + h
 
     # (a) every form in a minimal context: plain rendering and messy rendering
     for f in TAB.forms:
@@ -279,7 +283,7 @@ def gen(tier, rng, shard, nshards):
                 continue
             g = SGen(rng, nasty=0.2 if rep == 0 else 0.5, star_max=2)
             toks = g.cover(f, depth=0 if rep == 0 else 1)
-            yield rt(toks, messy=rep > 0)
+            yield from rt(toks, messy=rep > 0)
     # (b) blocks: empty, with / without variant, repeated
     for f in TAB.forms:
         items = f.lean_items()
@@ -296,7 +300,7 @@ def gen(tier, rng, shard, nshards):
             elif kk == "opt":
                 withvar += g.nt(a, 0)
         for body in (empty, withvar, empty + empty, withvar + empty):
-            yield rt(_wrap(rng, f, body), messy=False)
+            yield from rt(_wrap(rng, f, body), messy=False)
     # (c) all forms of a rule in one block, random order; ordered pairs
     for n, fs in FORMS_OF.items():
         if n == TAB.start or n not in PARENTS:
@@ -314,7 +318,7 @@ def gen(tier, rng, shard, nshards):
             body = []
             for f in order:
                 body += g.form(f, 0)
-            yield rt(_wrap_nt(rng, n, body), messy=rep > 0)
+            yield from rt(_wrap_nt(rng, n, body), messy=rep > 0)
         pairs = [(a, b) for a in lex for b in lex]
         if not thorough:
             pairs = rng.sample(pairs, min(len(pairs), 12))
@@ -322,7 +326,7 @@ def gen(tier, rng, shard, nshards):
             if not mine():
                 continue
             g = SGen(rng, star_max=1, nasty=0.1)
-            yield rt(_wrap_nt(rng, n, g.form(a, 0) + g.form(b, 0)), messy=False)
+            yield from rt(_wrap_nt(rng, n, g.form(a, 0) + g.form(b, 0)), messy=False)
     # (d) random profiles
     nrand = (52000 if thorough else 1900) // nshards
     for _ in range(nrand):
@@ -334,7 +338,7 @@ def gen(tier, rng, shard, nshards):
             toks = g.nt(TAB.start, depth)
         if len(toks) > 400:
             continue
-        yield rt(toks, tight=rng.choice([0.0, 0.3, 0.9]))
+        yield from rt(toks, tight=rng.choice([0.0, 0.3, 0.9]))
 
     # ---- tree stream: parsed trees, mutated trees, hand-made trees
     ntree = (3000 if thorough else 260) // nshards
@@ -426,7 +430,8 @@ def gen_soup(rng) -> str:
         elif r < 0.8:
             out.append(gen_literal(rng, 0.4))
         elif r < 0.9:
-            out.append(rng.choice(['"unterminated', '"a\\"', "foo", "Set", "c", "-", "=", "0", '"', "\\", "'x'", "é"]))
+            out.append(rng.choice(['"unterminated', '"a\\"', "foo", "Set", "c", "-", "=", "0", '"', "\\", "'x'", "é", "\x0b", "\xa0", "\u2028",
+                                   "\x85", "\x00"]))
         else:
             out.append(rng.choice(KW) + rng.choice(KW))
         s = rng.random()
@@ -551,14 +556,24 @@ def as_text_with_items(prof):
     return text, list(_TeeReconstructor.seen)
 
 
-_RT_CACHE = {}
+_RT_CACHE = {"src": None, "res": None}
 
 
-def impl_rt(src: str, line: str) -> str:
+def run_rt(src: str):
+    """(rt answer, txt answer) for one source; the last result is kept so that the `txt` line that follows an `rt`
+    line does not pay for a second as_text()"""
+    if _RT_CACHE["src"] == src:
+        return _RT_CACHE["res"]
+    res = _run_rt(src)
+    _RT_CACHE["src"], _RT_CACHE["res"] = src, res
+    return res
+
+
+def _run_rt(src: str):
     try:
         prof = C2Profile.from_text(src)
     except lark.exceptions.LarkError:
-        return "exc LarkError"
+        return "exc LarkError", "exc LarkError"
     tree = prof.tree
     text, items = as_text_with_items(prof)
     src_toks = lark_tokens(src)
@@ -571,8 +586,8 @@ def impl_rt(src: str, line: str) -> str:
         reparse = C2Profile.from_text(text).tree == tree
     except lark.exceptions.LarkError:
         reparse = False
-    return (f"ok wf=T yield={C.tf(yield_ok)} tree {' '.join(enc_tree(tree))} print {enc_items(items)} text {hx(text)} "
-            f"relex={C.tf(relex)} reparse={C.tf(reparse)}")
+    return (f"ok wf=T yield={C.tf(yield_ok)} tree {' '.join(enc_tree(tree))} print {enc_items(items)} "
+            f"relex={C.tf(relex)} reparse={C.tf(reparse)}"), "text " + hx(text)
 
 
 def _postproc_fn():
@@ -588,7 +603,9 @@ def _postproc_fn():
 def impl(stream, line):
     w = line.split(" ")
     if stream == "rt":
-        return impl_rt(unhx(w[1]), line)
+        return run_rt(unhx(w[1]))[0]
+    if stream == "txt":
+        return run_rt(unhx(w[1]))[1]
     if stream == "bad":
         try:
             C2Profile.from_text(unhx(w[1]))
@@ -621,6 +638,8 @@ def impl(stream, line):
 def nontrivial(stream, line, out):
     if stream == "rt":
         return out.startswith("ok ") and " tree n0:0 " not in out
+    if stream == "txt":
+        return out.startswith("text ") and out != "text x"
     if stream == "tree":
         return out != "none"
     if stream == "lex":
@@ -641,7 +660,7 @@ def oracle(stream, line, out):
         return None
     if not out.startswith("ok "):
         return False
-    return " yield=T " in out and " relex=T " in out + " " and out.endswith("reparse=T")
+    return " yield=T " in out and " relex=T " in out and out.endswith(" reparse=T")
 
 
 # ------------------------------------------------------------------------------------------------------
@@ -653,7 +672,7 @@ _TOKRE = re.compile(r'"(?:.|\n)*?(?<!\\)(?:\\\\)*?"|#[^\n]*|[{};]|[^\s{};"#]+', 
 
 def shrink(stream, line):
     w = line.split(" ")
-    if stream in ("rt", "bad") and len(w) == 2:
+    if stream in ("rt", "txt", "bad") and len(w) == 2:
         src = unhx(w[1])
         toks = [t for t in _TOKRE.findall(src) if not t.startswith("#")]
         # statement spans: [start, end) ending at ';' or at the matching '}'
